@@ -78,8 +78,14 @@ def _classes():
                 odl.Operator.__init__(self, sp, sp, linear=False)
                 self.b = np.asarray(b)
             _call = mk_call(style, lambda self, x: np.asarray(x) * np.asarray(x) + self.b)
+        class MatOp(odl.Operator):
+            def __init__(self, dom, ran, M):
+                odl.Operator.__init__(self, dom, ran, linear=True)
+                self.M = np.asarray(M)
+            _call = mk_call(style, lambda self, x: self.M.dot(np.asarray(x)))
         _CLS['aff_' + style] = AffOp
         _CLS['sq_' + style] = SqOp
+        _CLS['mat_' + style] = MatOp
 
     class LinFunc(odl.solvers.Functional):
         def __init__(self, sp, w):
@@ -113,14 +119,26 @@ def _classes():
 class Ctx(object):
     """Per-case generation context: field, literal printers, leaf counter."""
 
-    def __init__(self, rng, cplx):
+    def __init__(self, rng, cplx, kind='rn'):
         self.rng, self.cplx, self.nleaf = rng, cplx, 0
         self.leaves = []
+        self.kind = kind                        # 'rn' | 'wrn' (constant weighting 2) | 'discr' (cell volume 2)
+        self.cw = 1 if kind == 'rn' else 2      # factor in inner products / norms
+        self._sp = {}
 
     # -- spaces / numbers
     def space(self, n):
         import odl
-        return odl.cn(n) if self.cplx else odl.rn(n)
+        if n not in self._sp:
+            dt = complex if self.cplx else float
+            if self.kind == 'rn':
+                sp = odl.cn(n) if self.cplx else odl.rn(n)
+            elif self.kind == 'wrn':
+                sp = odl.cn(n, weighting=2.0) if self.cplx else odl.rn(n, weighting=2.0)
+            else:
+                sp = odl.uniform_discr(0, 2 * n, n, dtype=dt)
+            self._sp[n] = sp
+        return self._sp[n]
 
     def num(self, small=False):
         r = self.rng
@@ -215,7 +233,7 @@ def make_leaf(ctx, dom, ran, want=None):
     r = ctx.rng
     style = r.choice(['oop', 'ip', 'both'])
     if ran == 'F':
-        kinds = ['flin', 'fquad', 'l2sq', 'ip', 'nquad'] + ([] if ctx.cplx else ['fl1'])
+        kinds = ['flin', 'fquad', 'l2sq', 'ip', 'nquad'] + ([] if (ctx.cplx or ctx.cw != 1) else ['fl1'])
         if want == 'func':
             kinds = [k for k in kinds if k not in ('ip', 'nquad')]
         if want == 'lin':
@@ -234,7 +252,7 @@ def make_leaf(ctx, dom, ran, want=None):
         if want == 'nonlin':
             kinds = [k for k in kinds if k in ('aff', 'sq', 'pow2', 'cube', 'abs')]
         k = r.choice(kinds)
-        spec = {'kind': k, 'dom': dom, 'ran': ran, 'style': style,
+        spec = {'kind': k, 'dom': dom, 'ran': ran, 'style': style, 'builtin': r.random() < 0.5,
                 'M': [ctx.ivec(dom, -2, 2) for _ in range(ran)], 'b': ctx.ivec(ran, -2, 2),
                 'v': ctx.ivec(dom), 'c': ctx.num()}
     return leaf_from_spec(ctx, spec)
@@ -262,11 +280,13 @@ def leaf_from_spec(ctx, spec):
             # InnerProductOperator(y)(x) = <x, y> = sum x_i conj(y_i): use y = conj(w)
             y = [complex(a).conjugate() for a in w] if ctx.cplx else w
             op = odl.InnerProductOperator(sp.element(y))
+            w = [ctx.cw * a for a in w]         # the space's inner product carries the weight / cell volume
+            fw = [fr(a) for a in w]
             lf = Leaf(op, '(%sIP %d %s)' % (p, i, ctx.qs(w)), dom, 'F', True, False,
                       lambda x: [vsum([a * b for a, b in zip(fw, x)])], k)
         elif k in ('fquad', 'l2sq'):
             if k == 'l2sq':
-                w, b, c = [1.0] * dom, [0.0] * dom, 0.0
+                w, b, c = [float(ctx.cw)] * dom, [0.0] * dom, 0.0
                 op = odl.solvers.L2NormSquared(sp)
             else:
                 b, c = spec['b'], spec['c']
@@ -309,7 +329,10 @@ def leaf_from_spec(ctx, spec):
                       lambda x: [vsum([a * u for a, u in zip(row, x)]) + bb for row, bb in zip(fM, fb)], k)
         else:
             if k == 'mat':
-                op = odl.MatrixOperator(np.array(M, dtype=dt), domain=sp, range=rsp)
+                if ctx.kind != 'discr' and spec.get('builtin', True):
+                    op = odl.MatrixOperator(np.array(M, dtype=dt), domain=sp, range=rsp)
+                else:
+                    op = K['mat_' + style](sp, rsp, np.array(M, dtype=dt))
             elif k == 'scal':
                 op = odl.ScalingOperator(sp, c)
             elif k == 'ident':
@@ -782,7 +805,7 @@ def run_case(ctx, t, npts=2):
             % (to_coq(ctx, t), sk, dterm, rterm, C.b(bool(o.is_linear)), C.b(isinstance(o, Functional)),
                C.lst(pts)))
     desc = {'expr': src_skeleton(t), 'built': name, 'is_linear': bool(o.is_linear), 'points': len(pts),
-            'field': 'C' if ctx.cplx else 'R'}
+            'field': 'C' if ctx.cplx else 'R', 'space': ctx.kind}
     return term, desc, ((name, src_skeleton(t)) if size(t) else None)
 
 
@@ -808,7 +831,7 @@ def correspondence(rng, tier):
     n = 450 if tier == 'quick' else 2500
     maxd = 4 if tier == 'quick' else 7
     for i in range(n):
-        ctx = Ctx(rng, False)
+        ctx = Ctx(rng, False, rng.choice(['rn', 'rn', 'wrn', 'discr']))
         depth = rng.randint(1, maxd)
         ran = rng.choice(DIMS + ['F', 'F'])
         t = gen(ctx, depth, rng.choice(DIMS), ran, p_bad=0.03)
@@ -836,7 +859,7 @@ def correspondence(rng, tier):
     cc = C.CaseSet('complex', ['Base.Vec', 'C04.Model', 'C04.Cplx', 'C04.Corr'], 'check_cplx', 'case QC',
                    prelude=prelude)
     for i in range(n // 3):
-        ctx = Ctx(rng, True)
+        ctx = Ctx(rng, True, rng.choice(['rn', 'rn', 'wrn', 'discr']))
         depth = rng.randint(1, maxd)
         ran = rng.choice(DIMS + ['F', 'F'])
         t = gen(ctx, depth, rng.choice(DIMS), ran, p_bad=0.03)
@@ -964,13 +987,13 @@ def _key(ctx, t, res):
                 opnd = 'leaf'
         except Exception:
             opnd = 'unbuildable'
-    return '%s:%s:%s:%s' % (kind, k, opnd, 'complex' if ctx.cplx else 'real')
+    return '%s:%s:%s:%s:%s' % (kind, k, opnd, 'complex' if ctx.cplx else 'real', ctx.kind)
 
 
-def replay_tree(frozen, cplx, xs):
+def replay_tree(frozen, cplx, xs, kind='rn'):
     """Used by replay snippets: rebuild the tree and evaluate the oracle on it."""
     import random
-    ctx = Ctx(random.Random(0), cplx)
+    ctx = Ctx(random.Random(0), cplx, kind)
     t = thaw(ctx, frozen)
     res = oracle_node(ctx, t, xs)
     return res is None, res, None
@@ -983,7 +1006,7 @@ def _tree_probe(ctx, t, xs, what):
     ft, fxs, res = f
     key = _key(ctx, ft, res)
     rp = ("import sys\nsys.path.insert(0, %r)\nfrom harness import c04 as H\n"
-          "ok, observed, expected = H.replay_tree(%r, %r, %r)\n" % (C.VERIF, freeze(ft), ctx.cplx, fxs))
+          "ok, observed, expected = H.replay_tree(%r, %r, %r, %r)\n" % (C.VERIF, freeze(ft), ctx.cplx, fxs, ctx.kind))
     return C.Probe(False, key, '%s: %s on %s' % (res[0], res[1], src_skeleton(ft)), rp,
                    {'kind': res[0], 'detail': res[1], 'expr': src_skeleton(ft)})
 
@@ -1140,7 +1163,7 @@ def probes(rng, tier):
     n = 250 if tier == 'quick' else 1500
     maxd = 5 if tier == 'quick' else 8
     for i in range(n):
-        ctx = Ctx(rng, cplx=(i % 3 == 2))
+        ctx = Ctx(rng, (i % 3 == 2), rng.choice(['rn', 'rn', 'wrn', 'discr']))
         ran = rng.choice(DIMS + ['F', 'F'])
         d = rng.choice(DIMS)
         t = gen(ctx, rng.randint(1, maxd), d, ran, p_bad=0.04)
